@@ -1,15 +1,15 @@
 CONSTANTS
-  FixAsyncCb = FALSE
-  FixCbOutsideLock = FALSE
-  FixKickoff = FALSE
+  FixAsyncCb = TRUE
+  FixCbOutsideLock = TRUE
+  FixKickoff = TRUE
   Mode = "fine"
   Tier = "quick"
   Part = 0
   Parts = 1
-INIT Init
-NEXT Next
+SPECIFICATION Spec
 INVARIANT InvBounded
 INVARIANT Collect
-VIEW View
+INVARIANT InvNoDeadlock
+PROPERTY P_C18_returns
 POSTCONDITION Post
 CHECK_DEADLOCK FALSE
